@@ -10,7 +10,7 @@ class C01(ParserSessionProp):
     id = 'C01'
     families = FAMILIES_UNIFORM
     max_len = 6
-    nbest_choices = (1,)
+    nbest_choices = (1, 1, 1, 2, 4)      # the first parse of an n-best list must be optimal too; every pop is monitored
     penalty_choices = (0.0, 0.1, 0.1, 1.0, 10.0)      # the property is stated for penalties >= 0
     fault_classes = ('none', 'none', 'inband')
     need_poplog = True
